@@ -223,6 +223,8 @@ def op_obj(case, idx, auto_tag=True, auto_id=True):
         o["operationId"] = case["op_id"]
     elif auto_id:
         o["operationId"] = f"op{idx}"
+    if case.get("deprecated"):
+        o["deprecated"] = True
     if case.get("tags") is not None:
         o["tags"] = list(case["tags"])
     elif auto_tag:
@@ -304,5 +306,5 @@ def describe(c):
     r = ",".join(f"{k}:{v}" for k, v in c["responses"].items())
     t = f" tags={c['tags']}" if c.get("tags") is not None else ""
     o = f" id={c['op_id']}" if c.get("op_id") is not None else ""
-    it = f" item={c['item']}" if c.get("item") is not None else ""
+    it = (f" item={c['item']}" if c.get("item") is not None else "") + (" deprecated" if c.get("deprecated") else "")
     return f"{c['method'].upper()} {c['path']} [{ps}]{b} -> {r}{t}{o}{it}"
